@@ -34,23 +34,51 @@ def showTob : Tob → String
   | .auto => "auto" | .text => "text" | .binary => "binary"
 
 def showDigest (d : Digest) : String := s!"{d.algo}:{fp d.hash}"
-def showAddr (a : Addr) : String := s!"{showDigest a.d}:{a.ext}"
 
-def showEntry : Entry → String
-  | .file b w _ l => s!"file:{fp b}:{if w then "w" else "r"}:{match l with | some a => showAddr a | none => "-"}"
-  | .sym a => s!"sym:{showAddr a}"
+/-- interning tables of the driver: path strings and extensions -/
+structure Tab where
+  paths : Array String := #[]
+  exts : Array String := #[""]
+
+def extStr (p : String) : String :=
+  let file := (p.splitOn "/").getLast!
+  match (file.splitOn ".").reverse with
+  | e :: _ :: _ => if file.startsWith "." && (file.splitOn ".").length = 2 then "" else e
+  | _ => ""
+
+def Tab.internExt (t : Tab) (e : String) : Tab × Nat :=
+  match t.exts.idxOf? e with
+  | some i => (t, i)
+  | none => ({ t with exts := t.exts.push e }, t.exts.size)
+
+def Tab.intern (t : Tab) (p : String) : Tab × Path :=
+  let (t, ei) := t.internExt (extStr p)
+  match t.paths.idxOf? p with
+  | some i => (t, ⟨i, ei⟩)
+  | none => ({ t with paths := t.paths.push p }, ⟨t.paths.size, ei⟩)
+
+def Tab.interns (t : Tab) : List String → Tab × List Path
+  | [] => (t, [])
+  | p :: ps => let (t, x) := t.intern p; let (t, xs) := t.interns ps; (t, x :: xs)
+
+def Tab.path (t : Tab) (p : Path) : String := t.paths.getD p.id "?"
+def showAddr (t : Tab) (a : Addr) : String := s!"{showDigest a.d}:{t.exts.getD a.ext "?"}"
+
+def showEntry (t : Tab) : Entry → String
+  | .file b w _ l => s!"file:{fp b}:{if w then "w" else "r"}:{match l with | some a => showAddr t a | none => "-"}"
+  | .sym a => s!"sym:{showAddr t a}"
 
 def insSorted (x : String) : List String → List String
   | [] => [x]
   | y :: ys => if x < y then x :: y :: ys else y :: insSorted x ys
 def sortStrs (l : List String) : List String := l.foldr insSorted []
 
-def showState (s : St) : String :=
-  let ws := s.paths.filterMap (fun p => (s.ws p).map (fun e => s!"{p}={showEntry e}"))
+def showState (t : Tab) (s : St) : String :=
+  let ws := s.paths.filterMap (fun p => (s.ws p).map (fun e => s!"{t.path p}={showEntry t e}"))
   let cache := s.addrs.filterMap (fun a => (s.cache a).map (fun o =>
-    s!"{showAddr a}={fp o.b}:{if o.ro then "ro" else "rw"}:{if s.dirRo a.d then "dro" else "drw"}"))
+    s!"{showAddr t a}={fp o.b}:{if o.ro then "ro" else "rw"}:{if s.dirRo a.d then "dro" else "drw"}"))
   let recs := s.ents.filterMap (fun e => (s.recs e).map (fun r =>
-    s!"{r.path}={match r.cur with | some d => showDigest d | none => "-"}:[{",".intercalate (r.digests.map showDigest)}]:{showMethod r.method}:{showTob r.tob}"))
+    s!"{t.path r.path}={match r.cur with | some d => showDigest d | none => "-"}:[{",".intercalate (r.digests.map showDigest)}]:{showMethod r.method}:{showTob r.tob}"))
   s!"ws=\{{";".intercalate (sortStrs ws)}} cache=\{{";".intercalate (sortStrs cache)}} rec=\{{";".intercalate (sortStrs recs)}}"
 
 def showOut : Out → String | .ok => "ok" | .refused => "refused" | .panic => "panic"
@@ -60,10 +88,11 @@ def b01 (s : String) : Bool := s == "1"
 structure D where
   cfg : Cfg := {}
   st : St := St.init
+  tab : Tab := {}
 
 def exec (d : D) (cmd : Cmd) : D × String :=
   let (s, o) := d.st.step d.cfg cmd
-  ({ d with st := s }, s!"rc={showOut o} {showState s}")
+  ({ d with st := s }, s!"rc={showOut o} {showState d.tab s}")
 
 def stepLine (d : D) (line : String) : D × String :=
   match (line.dropEndWhile (· == '\n')).toString.splitOn "\t" with
@@ -71,17 +100,26 @@ def stepLine (d : D) (line : String) : D × String :=
     match a.toNat?, parseMethod m, parseTob t with
     | some a, some m, some t => ({ d with cfg := { algo := a, method := m, tob := t } }, "ok")
     | _, _, _ => (d, "bad-op")
-  | ["write", p, h] => exec d (.write p (parseHex h))
-  | ["delete", p] => exec d (.delete p)
+  | ["write", p, h] => let (t, p) := d.tab.intern p; exec { d with tab := t } (.write p (parseHex h))
+  | ["delete", p] => let (t, p) := d.tab.intern p; exec { d with tab := t } (.delete p)
   | "track" :: m :: t :: nc :: f :: ps =>
-    exec d (.track ps { method := parseMethod m, tob := parseTob t, noCommit := b01 nc, force := b01 f })
-  | "carryin" :: t :: f :: ps => exec d (.carryIn ps (parseTob t) (b01 f))
-  | "recheck" :: m :: f :: ps => exec d (.recheck ps (parseMethod m) (b01 f))
-  | "remove" :: a :: f :: ps => exec d (.remove ps (b01 a) (b01 f))
-  | "untrack" :: ps => exec d (.untrack ps)
-  | ["copy", m, nr, f, a, b] => exec d (.copy a b { method := parseMethod m, noRecheck := b01 nr, force := b01 f })
-  | ["move", m, nr, a, b] => exec d (.move a b { method := parseMethod m, noRecheck := b01 nr, force := false })
-  | ["state"] => (d, showState d.st)
+    let (tb, ps) := d.tab.interns ps
+    exec { d with tab := tb } (.track ps { method := parseMethod m, tob := parseTob t, noCommit := b01 nc, force := b01 f })
+  | "carryin" :: t :: f :: ps => let (tb, ps) := d.tab.interns ps; exec { d with tab := tb } (.carryIn ps (parseTob t) (b01 f))
+  | "recheck" :: m :: f :: ps => let (tb, ps) := d.tab.interns ps; exec { d with tab := tb } (.recheck ps (parseMethod m) (b01 f))
+  | "remove" :: a :: f :: ps => let (tb, ps) := d.tab.interns ps; exec { d with tab := tb } (.remove ps (b01 a) (b01 f))
+  | "untrack" :: ps => let (tb, ps) := d.tab.interns ps; exec { d with tab := tb } (.untrack ps)
+  | ["copy", m, nr, f, a, b] =>
+    let (tb, ps) := d.tab.interns [a, b]
+    match ps with
+    | [a, b] => exec { d with tab := tb } (.copy a b { method := parseMethod m, noRecheck := b01 nr, force := b01 f })
+    | _ => (d, "bad-op")
+  | ["move", m, nr, a, b] =>
+    let (tb, ps) := d.tab.interns [a, b]
+    match ps with
+    | [a, b] => exec { d with tab := tb } (.move a b { method := parseMethod m, noRecheck := b01 nr, force := false })
+    | _ => (d, "bad-op")
+  | ["state"] => (d, showState d.tab d.st)
   | [""] => (d, "")
   | _ => (d, "bad-op")
 
